@@ -63,6 +63,10 @@ pub struct Script {
     /// responses delivered with chunked transfer encoding / lower-case header names (bits 0 / 1)
     #[serde(default)]
     pub delivery: u8,
+    /// upload times have whole-second resolution: groups of this many consecutive chunks share one time
+    /// (0/1 = all distinct). Directory first-chunk times stay distinct.
+    #[serde(default)]
+    pub tie_group: u8,
 }
 
 const N_DIRS: usize = 999;
@@ -117,9 +121,11 @@ pub fn chunk_name(volume: usize, seq: usize) -> String {
     format!("{}-{:03}-{}", volume_prefix(volume), seq, match seq { 1 => "S", 55 => "E", _ => "I" })
 }
 
-fn upload_time(lin: usize) -> DateTime<Utc> {
-    // a fixed time in the past, strictly increasing with the upload order
-    DateTime::<Utc>::from_timestamp(1_000_000_000 + lin as i64 * 7, 0).expect("valid")
+fn upload_time_g(lin: usize, tie_group: u8) -> DateTime<Utc> {
+    // a fixed time in the past, non-decreasing with the upload order; with tie_group = g >= 2, g consecutive
+    // chunks share one whole second (S3 listings report whole seconds)
+    let g = tie_group.max(1) as usize;
+    DateTime::<Utc>::from_timestamp(1_000_000_000 + (lin / g) as i64 * 7, 0).expect("valid")
 }
 
 /// Object bytes of a chunk: start chunks are real volume files (header + bzip2 record holding the
@@ -205,7 +211,7 @@ impl PollWorld {
         }
         Some(ListedObject {
             key: format!("{}/{}/{}", self.site, volume, chunk_name(volume, s)),
-            last_modified: upload_time(self.script.lin(volume, s)).format("%Y-%m-%dT%H:%M:%S.000Z").to_string(),
+            last_modified: upload_time_g(self.script.lin(volume, s), self.script.tie_group).format("%Y-%m-%dT%H:%M:%S.000Z").to_string(),
             size: "4096".to_string(),
         })
     }
@@ -343,7 +349,7 @@ impl World for PollWorld {
                         }
                         let mut r = Response::new(200, object_bytes(&self.script, d, s));
                         if self.script.last_modified_header {
-                            r.headers.push(("Last-Modified".into(), upload_time(lin).format("%a, %d %b %Y %H:%M:%S GMT").to_string()));
+                            r.headers.push(("Last-Modified".into(), upload_time_g(lin, self.script.tie_group).format("%a, %d %b %Y %H:%M:%S GMT").to_string()));
                         }
                         r
                     } else if status == 404 {
@@ -526,7 +532,7 @@ pub fn check_script(script: &Script) -> Check {
         let bytes = object_bytes(script, v, s);
         ensure!(d.data == bytes, "history:payload-differs", "delivery {} ({}, {}): {} bytes delivered, {} bytes uploaded", i + 1, v, s, d.data.len(), bytes.len());
         ensure_eq!(d.site.as_str(), h.site.as_str(), "history:site-label", "delivery {}", i + 1);
-        let want_when = if script.last_modified_header { Some(upload_time(script.lin(v, s))) } else { None };
+        let want_when = if script.last_modified_header { Some(upload_time_g(script.lin(v, s), script.tie_group)) } else { None };
         // the first delivery's identifier comes from the download too, so the same rule applies
         ensure_eq!(d.when, want_when, "history:upload-time-label", "delivery {} ({}, {})", i + 1, v, s);
     }
@@ -622,17 +628,17 @@ pub fn script_strategy() -> impl Strategy<Value = Script> {
         3 => (0usize..=12).prop_map(Consumer::StopAfter),
         2 => (0usize..=12).prop_map(Consumer::DropAfter),
     ];
-    (volume, run, seq, entries, never_at, consumer, (any::<bool>(), prop_oneof![2 => Just(0u8), 1 => 1u8..4]), prop_oneof![3 => Just(true), 1 => Just(false)], gen::vcp(prop_oneof![Just(0usize), 1usize..=20].boxed()).prop_flat_map(|v| {
+    (volume, run, seq, entries, never_at, consumer, (any::<bool>(), prop_oneof![2 => Just(0u8), 1 => 1u8..4], prop_oneof![3 => Just(0u8), 1 => Just(2u8), 1 => Just(3u8), 1 => Just(5u8)]), prop_oneof![3 => Just(true), 1 => Just(false)], gen::vcp(prop_oneof![Just(0usize), 1usize..=20].boxed()).prop_flat_map(|v| {
         let n = v.cuts.len();
         (Just(v), vec(gen::realistic_cut(), n))
     }))
-        .prop_map(|(start_volume, run_length, start_sequence, mut entries, never_at, consumer, (with_stats, delivery), last_modified_header, (mut vcp, cuts))| {
+        .prop_map(|(start_volume, run_length, start_sequence, mut entries, never_at, consumer, (with_stats, delivery, tie_group), last_modified_header, (mut vcp, cuts))| {
             vcp.cuts = cuts;
             if let (Some(sel), false) = (never_at, entries.is_empty()) {
                 let i = (sel as usize * entries.len()) >> 16;
                 entries[i].delay = NEVER;
             }
-            Script { start_volume, run_length, start_sequence, entries, consumer, with_stats, last_modified_header, vcp, delivery }
+            Script { start_volume, run_length, start_sequence, entries, consumer, with_stats, last_modified_header, vcp, delivery, tie_group }
         })
 }
 
@@ -654,6 +660,7 @@ pub fn classify(s: &Script) -> CaseInfo {
         .class(natural.windows(2).any(|w| s.pos(w[0]).1 == 55 && s.pos(w[1]).1 > 1), "uploader-ahead-at-switch")
         .class(!s.last_modified_header, "no-last-modified-header")
         .class(s.run_length >= 100, "widely-populated-bucket")
+        .class(s.tie_group >= 2, "tied-upload-times")
 }
 
 pub fn run(ctx: &Ctx, rep: &mut Report) {
@@ -678,6 +685,7 @@ pub fn run(ctx: &Ctx, rep: &mut Report) {
     rep.require_class("scenarios", "consumer-dropped", 20);
     rep.require_class("scenarios", "delayed-or-faulted-chunk", 50);
     rep.require_class("scenarios", "widely-populated-bucket", 20);
+    rep.require_class("scenarios", "tied-upload-times", 40);
 
     let slow: Vec<_> = rep.violations.iter().filter(|v| v.sig == "inconclusive:watchdog").map(|v| v.detail.clone()).collect();
     if !slow.is_empty() {
